@@ -70,6 +70,8 @@ type c16Cast struct {
 	// the issuing CA's previous certificate: same name, same key, key usage keyCertSign only
 	oldCA             *world.Ident
 	oldCACertInChains bool
+	// sendUnknownCAAlong: with the signer variant "unknown" every client sends the unknown CA's certificate along
+	sendUnknownCAAlong bool
 }
 
 func newC16Cast() *c16Cast {
@@ -139,7 +141,22 @@ func (c *c16Cast) observe(w *TW, cdp bool) string {
 		}
 		return world.Chain(l, c.ca, c.p.Root)
 	}
-	v1, v2, vc := w.Handshake(ch(l1)), w.Handshake(ch(l2)), w.Handshake(ch(cl))
+	hs := func(l *world.Ident) Verdict {
+		chains := ch(l)
+		if !c.sendUnknownCAAlong {
+			return w.Handshake(chains)
+		}
+		// the client's Certificate message also carries the certificate of the CA which signed the "unknown" lists - a
+		// certificate which is part of no verified chain
+		var raw [][]byte
+		for _, x := range chains[0] {
+			raw = append(raw, x.Raw)
+		}
+		raw = append(raw, c.unknownCA.Cert.Raw)
+		_, fresh := freshHandshake(chains[0][0], chains)
+		return w.HandshakeRaw(raw, fresh)
+	}
+	v1, v2, vc := hs(l1), hs(l2), hs(cl)
 	vsched.Drain()
 	if v1.Panic != "" || v2.Panic != "" || vc.Panic != "" {
 		return "PANIC:" + v1.Panic + v2.Panic + vc.Panic
@@ -170,7 +187,8 @@ func (c *c16Cast) runCell(cell c16Cell) (obs c16Obs, want []string) {
 		return true
 	}
 	c.oldCACertInChains = cell.Signer == "resolvable-renewed-CA-certificate"
-	defer func() { c.oldCACertInChains = false }()
+	c.sendUnknownCAAlong = cell.Signer == "unknown"
+	defer func() { c.oldCACertInChains, c.sendUnknownCAAlong = false, false }()
 	seqWorld(func() {
 		net := world.NewNet()
 		dir := FreshDir("c16")
